@@ -670,9 +670,10 @@ class Association(threading.Thread):
                 with set_timer_resolution(self._timer_resolution):
                     self._run_reactor()
 
-                # The reactor has stopped, don't leave other threads waiting
-                #   for it to pause
-                self._is_paused = True
+            # The reactor has stopped (or was never started because the
+            #   association ended first), don't leave other threads waiting
+            #   for it to pause
+            self._is_paused = True
 
             # Ensure the connection is shutdown properly
             sock = cast("AssociationSocket", self.dul.socket)
@@ -693,9 +694,10 @@ class Association(threading.Thread):
                 with set_timer_resolution(self._timer_resolution):
                     self._run_reactor()
 
-                # The reactor has stopped, don't leave other threads waiting
-                #   for it to pause
-                self._is_paused = True
+            # The reactor has stopped (or was never started because the
+            #   association ended first), don't leave other threads waiting
+            #   for it to pause
+            self._is_paused = True
 
     def _run_reactor(self) -> None:
         """Run the ``Association`` acceptor reactor loop.
